@@ -482,7 +482,7 @@ Definition set_canonical (fuel : nat) (st : db) (x : hdr) : outcome :=
     | Err e => (st1, ev1, Some e)
     | Ok (st2, ev2) =>
       match write_head_block fuel st2 x with
-      | None => (st2, ev1 ++ ev2, Some EOutOfFuel)
+      | None => (st1, ev1, Some EOutOfFuel)   (* model artefact: nothing applied *)
       | Some st3 =>
         (st3, ev1 ++ ev2 ++ [EvChain (fst x)] ++
               (match logs_of st3 x with [] => [] | l => [EvLogs l] end) ++ [EvHead (fst x)], None)
